@@ -97,6 +97,152 @@ def _raise_nested(msg: str, depth: int = 2) -> None:
     _raise_nested(msg, depth - 1)
 
 
+# ---- callers that log MUTABLE objects and go on changing them ------------------------------------
+# "Whatever messages ... a run logs": what a call logs is the text its message/arguments render to AT THE
+# TIME OF THE CALL (logger.info("found so far: %s", found); found.append(x)).  A run keeps such objects
+# alive and changes them right after the call: a growing list of findings, a re-used receive buffer, a
+# state dict, a status object with __str__, a ring buffer of the last frames.  The family below logs them
+# as %-style arguments (%s, %r, among immutable arguments, as the mapping of %(name)s directives, nested in
+# an immutable tuple) and as the message object itself, one object per call or ONE object for the whole run.
+
+MUT_KINDS = ("list", "dict", "bytearray", "obj", "deque", "nested")
+MUT_VIAS = {"list": ("arg-s", "arg-r", "mixed-last", "mixed-first", "msg"),
+            "dict": ("mapping", "arg-s", "mixed-last", "msg"),
+            "bytearray": ("arg-s", "arg-r", "mixed-first", "msg"),
+            "obj": ("arg-s", "arg-r", "mixed-last", "msg"),
+            "deque": ("arg-s", "mixed-first", "msg"),
+            "nested": ("arg-s", "arg-r", "mixed-last")}
+MUT_HOWS = {"list": ("append", "clear", "set0", "pop", "extend"),
+            "dict": ("setitem", "newkey", "bump", "clear"),
+            "bytearray": ("zero", "append", "set0", "clear"),
+            "obj": ("state", "count"),
+            "deque": ("append", "appendleft"),
+            "nested": ("append", "clear")}
+
+
+class Status:
+    """What a scanner keeps about its target; rendered by __str__/__repr__ when it is logged."""
+
+    def __init__(self, name: str, state: str, count: int) -> None:
+        self.mark = ""
+        self.name, self.state, self.count = name, state, count
+
+    def __str__(self) -> str:
+        return f"{self.mark}{self.name}: {self.state} after {self.count} requests"
+
+    def __repr__(self) -> str:
+        return f"Status({self.mark!r}, {self.name!r}, {self.state!r}, {self.count})"
+
+
+def _mut_spec(rnd: random.Random) -> dict[str, Any]:
+    kind = rnd.choice(MUT_KINDS)
+    init: Any
+    if kind in ("list", "nested"):
+        init = [rnd.choice([rand_text(rnd, 6), f"0x{rnd.randint(0, 0xFFFF):04x}"]) for _ in range(rnd.randint(0, 4))]
+    elif kind == "dict":
+        init = {"session": rnd.randint(1, 0x7F), "retries": rnd.randint(0, 3), "name": rand_text(rnd, 6)}
+    elif kind == "bytearray":
+        init = rnd.randbytes(rnd.randint(0, 8)).hex()
+    elif kind == "obj":
+        init = [rand_text(rnd, 6), rnd.choice(["idle", "scanning", "locked\n"]), rnd.randint(0, 99)]
+    else:
+        init = [rnd.randint(0, 255) for _ in range(rnd.randint(0, 4))]
+    return {"kind": kind, "via": rnd.choice(MUT_VIAS[kind]), "how": rnd.choice(MUT_HOWS[kind]),
+            # slot k: the caller's ONE long-lived object of that kind (init counts at its first use only)
+            "slot": MUT_KINDS.index(kind) if rnd.random() < 0.6 else None,
+            "init": init, "val": rnd.choice([rand_text(rnd, 5) or "v", f"0x{rnd.randint(0, 0xFFFF):04x}"]),
+            "num": rnd.randint(1, 250)}
+
+
+def _mut_make(m: dict[str, Any]) -> Any:
+    from collections import deque
+
+    k, init = m["kind"], m["init"]
+    if k == "list":
+        return list(init)
+    if k == "nested":
+        return ("ecu", list(init))
+    if k == "dict":
+        return dict(init)
+    if k == "bytearray":
+        return bytearray.fromhex(init)
+    if k == "obj":
+        return Status(*init)
+    return deque(init, maxlen=4)
+
+
+def _mut_call(m: dict[str, Any], obj: Any, mark: str, text: str) -> tuple[Any, tuple[Any, ...]]:
+    """(msg, args) of the log call."""
+    via = m["via"]
+    if isinstance(obj, Status):
+        obj.mark = mark if via == "msg" else ""       # set BEFORE the call: part of what is logged
+    if via == "msg":
+        return obj, ()
+    if via == "mapping":
+        return f"{mark}{text} session %(session)d, retries %(retries)d of %(name)s", (obj,)
+    if via == "arg-s":
+        return f"{mark}{text} %s.", (obj,)
+    if via == "arg-r":
+        return f"{mark}{text} %r.", (obj,)
+    if via == "mixed-last":
+        return f"{mark}{text} %s|%d|%s", (m["val"], m["num"], obj)
+    return f"{mark}{text} %r|%d|%s", (obj, m["num"], m["val"])
+
+
+def _mut_after(m: dict[str, Any], obj: Any) -> None:
+    """What the caller does with its object right after the log call returned."""
+    k, how, val, num = m["kind"], m["how"], m["val"], m["num"]
+    if k == "nested":
+        obj = obj[1]
+    if k in ("list", "nested"):
+        if how == "clear" and obj:
+            obj.clear()
+        elif how == "set0" and obj:
+            obj[0] = val + "'"
+        elif how == "pop" and obj:
+            obj.pop()
+        elif how == "extend":
+            obj.extend([val, val])
+        else:
+            obj.append(val)
+    elif k == "dict":
+        if how == "newkey":
+            obj[val] = num
+        elif how == "bump":
+            obj["retries"] = obj.get("retries", 0) + 1
+            obj["session"] = obj.get("session", 0) + 1
+        elif how == "clear" and m["slot"] is None:
+            obj.clear()
+        else:
+            obj["session"] = obj.get("session", 0) + num
+            obj["name"] = val
+    elif k == "bytearray":
+        if how == "zero" and any(obj):
+            obj[:] = bytes(len(obj))
+        elif how == "set0" and obj:
+            obj[0] ^= 0xFF
+        elif how == "clear" and obj:
+            obj.clear()
+        else:
+            obj.append(num)
+    elif k == "obj":
+        if how == "state":
+            obj.state = f"{obj.state}>{val}"[-24:]
+        obj.count += 1
+    elif how == "appendleft":
+        obj.appendleft(num)
+    else:
+        obj.append(num)
+
+
+def _render_now(msg: Any, args: tuple[Any, ...]) -> str | None:
+    try:
+        rec = logging.LogRecord("x", 20, "x", 0, msg, args, None)
+        return rec.getMessage()
+    except Exception:  # noqa: BLE001
+        return None
+
+
 def records_of(spec: dict[str, Any]) -> list[dict[str, Any]]:
     """Expand a log spec into record specs:
     {level, msg, args, tags (None = absent), exc (None | message), dt_us (increment of the clock)}"""
@@ -113,7 +259,18 @@ def records_of(spec: dict[str, Any]) -> list[dict[str, Any]]:
     for i in range(spec["n"]):
         r: dict[str, Any] = {"level": rnd.choice(names), "args": None, "tags": None, "exc": None,
                              "dt_us": rnd.choice([0, 1, 1, 7, 999, 1000, 123456, 10**6, 86400 * 10**6 + 3])}
-        if shape == "plain":
+        if shape == "mutable":
+            r["msg"] = rand_text(rnd, 10).replace("%", "")
+            if rnd.random() < 0.75:
+                r["mut"] = _mut_spec(rnd)
+            elif rnd.random() < 0.5:       # control records: immutable arguments, nothing changes afterwards
+                r["msg"] += " %s|%d|%r"
+                r["args"] = [rand_text(rnd, 12), rnd.randint(-10**6, 10**6), rand_text(rnd, 4)]
+            if rnd.random() < 0.25:
+                r["tags"] = [rand_text(rnd, 6) for _ in range(rnd.randint(0, 2))]
+            if rnd.random() < 0.08:
+                r["exc"] = rand_text(rnd, 10)
+        elif shape == "plain":
             r["msg"] = f"message {i}"
         elif shape == "long" and i % 3 == 0:
             unit = rand_text(rnd, 30) or "x"
@@ -186,6 +343,7 @@ class Written:
         self.n = len(seen)
         self.log = [{"id": i + 1, "prio": LEVELS[w["level"]][1]} for i, w in enumerate(seen)]
         self._raw: bytes | None = None
+        self.mut_changed = 0
         self.by_key: dict[Any, int] = {}
         for i, w in enumerate(seen):
             if w["exc_line"] is None:
@@ -281,6 +439,8 @@ def write_log(spec: dict[str, Any], directory: Path, name: str) -> Written:
     close_error = None
     intended: list[list[str] | None] = []
     shared: dict[tuple[str, ...], list[str]] = {}
+    slots: dict[int, Any] = {}
+    mut_changed = 0
     other_lg = other_handler = None
     other_span = (len(recs) // 3, max(len(recs) // 3 + 1, 2 * len(recs) // 3)) if spec.get("other_log") else None
     try:
@@ -317,6 +477,16 @@ def write_log(spec: dict[str, Any], directory: Path, name: str) -> Written:
                 intended[-1] = ["result"]
                 kw.setdefault("extra", {"tags": shared.setdefault((), [])})
             args = tuple(r["args"]) if r["args"] is not None else ()
+            mut = r.get("mut")
+            mobj = None
+            if mut is not None:
+                # the caller logs one of ITS objects (a fresh one, or the one it keeps for the whole run) ...
+                if mut["slot"] is None:
+                    mobj = _mut_make(mut)
+                else:
+                    mobj = slots.setdefault(mut["slot"], _mut_make(mut))
+                msg, args = _mut_call(mut, mobj, f"{MARK_L}{i + 1}{MARK_R}", r["msg"])
+                before = _render_now(msg, args)
             if r["exc"] is not None:
                 try:
                     _raise_nested(r["exc"])
@@ -324,6 +494,10 @@ def write_log(spec: dict[str, Any], directory: Path, name: str) -> Written:
                     fn(msg, *args, exc_info=True, **kw)
             else:
                 fn(msg, *args, **kw)
+            if mut is not None:
+                # ... and goes on working with it as soon as the call has returned
+                _mut_after(mut, mobj)
+                mut_changed += _render_now(msg, args) != before
     finally:
         if gate is not None:
             progress["done"] = True
@@ -349,7 +523,9 @@ def write_log(spec: dict[str, Any], directory: Path, name: str) -> Written:
         # caller's list in place changes what the logger object saw, not what was logged)
         for rec_seen, tags in zip(cap.seen, intended):
             rec_seen["tags"] = tags
-    return Written(spec, path, cap.seen)
+    w = Written(spec, path, cap.seen)
+    w.mut_changed = mut_changed     # log calls whose arguments render differently after the caller's next step
+    return w
 
 
 # ----------------------------------------------------------------------------
